@@ -104,6 +104,7 @@ type FuncV struct {
 	native func(in *Interp, args []Value) Value
 }
 type MapObj struct {
+	floatKey bool
 	keys []Value
 	vals []Value
 }
